@@ -55,7 +55,7 @@ ASSUMPTIONS = [
     "option spellings -Jv / --job-name v are valid getopt_long forms that sbatch accepts",
 ]
 SHARDS = {"quick": 16, "thorough": 16}
-WALL = {"quick": 240, "thorough": 1500}
+WALL = {"quick": 300, "thorough": 1500}
 EXHAUSTIVE_WHEN_COMPLETED = True
 EXHAUSTIVE_NOTE = (
     "per worker: all verdict sequences of length <= 2 (quick) / <= 3 (thorough) over the worker's end "
@@ -147,6 +147,8 @@ def observe(case, d):
         except Exception:
             pass
         asyncio.set_event_loop(None)
+    if fake.harness_error is not None:
+        raise fake.harness_error
     obs["worker_reports"] = tracker.reports
     obs["calls"] = [c[0] if c[0] != "scontrol" else "scontrol-" + c[1] for c in fake.calls]
     obs["submits"] = [a for a in fake.submit_argv]
